@@ -90,6 +90,38 @@ def gen_source(rng):
     return ''.join(out).encode('latin-1')
 
 
+def gen_big_source(rng):
+    """Large multi-line tokens whose sizes sit on and around the powers of
+    two at which buffering or windowing optimisations change behaviour."""
+    parts = []
+    for _ in range(rng.choice([1, 2, 3])):
+        size = rng.choice([1024, 2048, 4096, 8192, 16384]) + rng.choice(
+            [-3, -2, -1, 0, 1, 2, 3, rng.randint(-40, 40)])
+        kind = rng.choice(['comment', 'long', 'quoted', 'long2'])
+        filler = []
+        n = 0
+        while n < size:
+            ln = rng.choice(['x', 'lorem ipsum', 'a]b', 'q\\q', '--', ']',
+                             'abc def ghi jkl', '0123456789' * 3])
+            filler.append(ln)
+            n += len(ln) + 1
+        body = '\n'.join(filler)[:max(0, size)]
+        pad = ' ' * rng.choice([0, 1, 2, 3, 5])
+        if kind == 'comment':
+            parts.append(pad + '--[[' + body.replace(']]', '] ]') + ']]')
+        elif kind == 'long':
+            parts.append(pad + 's=[[' + body.replace(']]', '] ]') + ']]')
+        elif kind == 'long2':
+            parts.append(pad + 's=[==[' + body.replace(']==]', ']= =]') +
+                         ']==]')
+        else:
+            b2 = body.replace('"', "'").replace('\\', '/').replace(
+                '\n', '\\\n')
+            parts.append(pad + 's="' + b2 + '"')
+        parts.append(rng.choice(['\n', ' x=1\n', '\n\n']))
+    return ''.join(parts).encode('latin-1')
+
+
 def line_ends(src):
     return [i + 1 for i, c in enumerate(src) if c == 10 and i + 1 < len(src)]
 
@@ -136,6 +168,19 @@ def lex(chunks_iterable, api='lexer'):
     return ('ok', out)
 
 
+def interleaved(chunks, seed, api):
+    """Cooperative interleaving of two lexers: between two chunks of the
+    lexer under test, a second, independent lexer is fed a whole other
+    source rich in multi-line tokens (what a lazily expanded #include of a
+    cart does)."""
+    rng = core.derive_rng(seed, 'interleave', 0)
+    others = [gen_source(rng) for _ in range(3)] + [
+        b'--[[ other\ncomment ]] y=[[other\nstring]] z="o\\\nther"\n']
+    for i, c in enumerate(chunks):
+        lex([others[i % len(others)]], api)
+        yield c
+
+
 def deliver(chunks, form):
     if form == 'list':
         return list(chunks)
@@ -160,8 +205,14 @@ def generate(rng, prop, tier, index):
                 'hashseeds': ['1', '2', '3', str(rng.randrange(4, 10**6))]}
     if index % 25 == 7:
         sc['src'] = {'$corpus': index // 25}
+    elif index % 10 == 3:
+        sc['src'] = core.enc_bytes(gen_big_source(rng))
+        sc['big'] = True
     else:
         sc['src'] = core.enc_bytes(gen_source(rng))
+    # another lexer is stepped between the chunks of this one
+    if rng.random() < 0.3:
+        sc['interleave'] = rng.randrange(10**9)
     sc['api'] = rng.choice(['lexer', 'lexer', 'lua'])
     sc['cut_seeds'] = [rng.randrange(10**9) for _ in range(20)]
     return sc
@@ -226,9 +277,19 @@ def execute(sc):
                 ['list', 'gen', 'tuple'])))
     multi = _multiline_kinds(base)
     n_split_inside = 0
+    if sc.get('interleave') is not None and sc.get('cuts') is None:
+        deliveries.append(('interleaved-all', ends, 'interleaved'))
+        deliveries.append(('interleaved-none', [], 'interleaved'))
+        core.bump(res['probes'], 'second-lexer-interleaved')
+    if sc.get('big'):
+        core.bump(res['probes'], 'big-multi-line-token')
     for tag, cuts, form in deliveries:
         chunks = chunk(src, cuts)
-        got = lex(deliver(chunks, form), api)
+        if form == 'interleaved':
+            got = lex(interleaved(chunks, sc.get('interleave') or 0, api),
+                      api)
+        else:
+            got = lex(deliver(chunks, form), api)
         core.bump(res['faults'], 'CHUNK')
         if got != base:
             if base[0] == 'ok' and got[0] == 'ok':
@@ -374,6 +435,11 @@ def shrink(sc):
         ends = line_ends(src)
         yield dict(sc, src=core.enc_bytes(src), cuts=ends, form='list',
                    cut_seeds=[])
+        if sc.get('interleave') is not None:
+            yield dict(sc, src=core.enc_bytes(src), cuts=ends,
+                       form='interleaved', cut_seeds=[])
+            yield dict(sc, src=core.enc_bytes(src), cuts=[],
+                       form='interleaved', cut_seeds=[])
         for cs in sc.get('cut_seeds', []):
             rng = core.derive_rng(cs, 'cuts', 0)
             if ends:
